@@ -1,4 +1,5 @@
 """C13 — hub-sync lands the local tree on the hub and skips what is already there (DESIGN §7 C13)."""
+import re
 from rules.common import *  # noqa: F401,F403
 import shell
 import tables
@@ -223,11 +224,12 @@ def run(ctx):
     if src_ is None:
         ctx.undecided('C13.R4', 'the List arm of serve no longer builds a Response::Fingerprints payload in serve::serve: what it lists is not read')
     else:
-        others = sorted(x for x in src_ if x != 'meta::discover_local_fingerprints')
-        if 'meta::discover_local_fingerprints' in src_ and not others:
-            ctx.ok('C13.R4', 'serve:List-hashes-the-files', 'the payload is computed from discover_local_fingerprints(root) only', 'src/bin/copia/serve.rs (serve::serve)')
+        hashing = {'meta::discover_local_fingerprints', 'meta::fingerprint_path'} | set(hubx.current_reads())
+        others = sorted(x for x in src_ if x not in hashing and not _hashes_when_asked(F, x))
+        if src_ and not others:
+            ctx.ok('C13.R4', 'serve:List-hashes-the-files', 'the digests of the payload come from %s only (each hashes the file when asked)' % ', '.join(sorted(x.split('::')[-1] for x in src_)), 'src/bin/copia/serve.rs (serve::serve)')
         else:
-            ctx.undecided('C13.R4', 'the digests List reports are (also) computed by %s: that each is the hash of the file\'s current content - what "already there" and the CAS expectation of every client rest on - is not decided' % ', '.join(o.split('::')[-1] for o in others[:4]))
+            ctx.undecided('C13.R4', 'the digests List reports are not (only) computed by hashing the files when asked (%s): that each is the hash of the file\'s current content - what "already there" and the CAS expectation of every client rest on - is not decided' % (', '.join(o.split('::')[-1] for o in others[:4]) or 'no hashing function found on the way to the payload'))
     ctx.attempt(r5, ctx, F)
 
 
@@ -254,10 +256,49 @@ def listing_sources(F):
                             continue
                         seen_.add(k_)
                         if o.kind in ('call', 'mutcall') and F.body(str(o.key)) is not None:
-                            out.add(str(o.key))
+                            # a crate function that hands back digests (a listing of paths or of sizes / times carries none)
+                            rty = F.body(str(o.key)).local_ty(0)
+                            if '[u8; 32]' in rty or 'Fingerprint' in rty or 'Hash' in rty or str(o.key) == 'meta::discover_local_fingerprints':
+                                out.add(str(o.key))
+                        elif o.kind in ('call', 'mutcall') and re.search(r'(serde_json|bincode|ciborium|serde_cbor|toml)::.*(from_|deserialize|de::)', str(o.key)):
+                            out.add('stored data (%s)' % str(o.key).split('::')[0])     # digests read back from something written earlier
                         if o.kind in ('call', 'mutcall') and o.bb is not None:
                             work += [a for a in sv.blocks[o.bb]['term'].get('args', []) if a['k'] != 'const']
+                        if o.kind == 'agg' and F.body(str(o.key)) is not None and F.body(str(o.key)).kind == 'closure':
+                            # a closure on the chain (`.filter_map(|p| Some((name, hub_fingerprint(&root.join(&p))?)))`): what it calls
+                            cbody = F.body(str(o.key))
+                            for cb_, ct_ in flow_of(cbody).calls(lambda c: True):
+                                c_ = callee(ct_) or ''
+                                if F.body(c_) is not None:
+                                    rty = F.body(c_).local_ty(0)
+                                    if '[u8; 32]' in rty or 'Fingerprint' in rty or 'Hash' in rty:
+                                        out.add(c_)
+                                elif re.search(r'(serde_json|bincode|ciborium|serde_cbor|toml)::.*(from_|deserialize|de::)', c_):
+                                    out.add('stored data (%s)' % c_.split('::')[0])
     return out
+
+
+def _hashes_when_asked(F, path, depth=0):
+    """a crate function every returned value of which is computed from the file on this very call: fingerprint_path / a blake3
+    digest, directly or through crate functions of the same kind - and nothing taken out of a collection"""
+    b = F.body(path)
+    if b is None or depth > 3:
+        return False
+    os_ = [o for o in flow_of(b).origins(0) if o.kind not in ('comb', 'const')]
+    if not os_:
+        return False
+    for o in os_:
+        k = str(o.key)
+        if o.kind != 'call':
+            return False
+        if re.search(r'(BTreeMap|HashMap|BTreeSet|HashSet|Vec|VecDeque|LruCache)\b.*::(get|get_mut|get_key_value|remove|entry|first|last|pop\w*)$', k):
+            return False
+        if k in ('meta::fingerprint_path', 'blake3::Hasher::finalize', 'blake3::hash'):
+            continue
+        if F.body(k) is not None and _hashes_when_asked(F, k, depth + 1):
+            continue
+        return False
+    return True
 
 
 def put_reply_meaning(F, p):
